@@ -133,6 +133,15 @@ func genBenign(r rng) *Spec {
 		is.DemoteDelay = r.pickD(0, 0, 50*ms)
 		s.Insts = append(s.Insts, is)
 	}
+	if r.chance(0.3) {
+		// priority takeover switched on everywhere with one and the same priority: nobody
+		// can preempt anybody, so the "no preemption" premise still holds, but the
+		// takeover code paths run
+		pr := 1 + r.IntN(3)
+		for i := range s.Insts {
+			s.Insts[i].Priority, s.Insts[i].Takeover = pr, true
+		}
+	}
 	s.Lat = benignLatency(r, minH)
 	s.Watch = randWatch(r)
 	T := 40 * hBase
